@@ -840,7 +840,12 @@ func (cfg *Config) quotedElemFields(pe *syntax.ParamExp) ([]string, error) {
 	if pe.Excl {
 		switch pe.Names {
 		case syntax.NamesPrefixWords: // "${!prefix@}"
-			return cfg.namesByPrefix(pe.Param.Value), nil
+			names := cfg.namesByPrefix(pe.Param.Value)
+			if names == nil {
+				// No matching names produce zero fields, like "$@".
+				names = []string{}
+			}
+			return names, nil
 		case syntax.NamesPrefix: // "${!prefix*}"
 			return nil, nil
 		}
@@ -850,7 +855,7 @@ func (cfg *Config) quotedElemFields(pe *syntax.ParamExp) ([]string, error) {
 			case Indexed:
 				return vr.indexedKeys(), nil
 			case Associative:
-				return slices.Collect(maps.Keys(vr.Map)), nil
+				return slices.Sorted(maps.Keys(vr.Map)), nil
 			}
 		}
 		return nil, nil
